@@ -510,6 +510,19 @@ C10_req(H) ==
     /\ H.out.goroutines = 0
     /\ H.out.opened = H.out.closed_once /\ Len(H.out.bad_handles) = 0
 
+\* C11 at the protocol entry points: every one of several concurrent results is the result of ITS OWN wire run (matched by source
+\* port; ICMP has none: by order) - each of its hops is backed by a packet delivered to that run's handle that answers that run's probe
+C11_same(H) ==
+    /\ H.out.conc_err = 0 /\ Len(H.out.conc) = H.par.concurrent
+    /\ \A c \in DOMAIN H.out.conc :
+          \E w \in WireRuns(H) :
+             /\ (~IsICMPv(V(H)) => SentOfRun(H, w)[1].p.sport = H.out.conc[c].sport)
+             /\ C01_run(H, SentOfRun(H, w), DelOfRun(H, w), H.out.conc[c].hops)
+    \* Paris mode with relaxed source checking: the per-probe sequence number is all that tells concurrent runs to one target apart
+    \* on the wire - no two probes of different runs carry the same one (32-bit random numbers: a collision is a defect, not chance)
+    /\ (V(H) = "tcp_paris" /\ ~H.par.strict) =>
+          \A a, b \in DOMAIN H.sent : H.sent[a].run # H.sent[b].run => H.sent[a].p.seq # H.sent[b].p.seq
+
 \* C04 at request level (library results; scripted paths on which only the target sends proof-of-arrival replies)
 C04_req(H) ==
     H.out.ok => \A r \in DOMAIN H.out.runs : \A k \in DOMAIN H.out.runs[r].hops :
